@@ -1,8 +1,10 @@
 (* Property theorems for C07 -- statements only; proofs are `exact` of lemmas
    (or vm_compute over the tables regenerated from the sources). *)
 From Coq Require Import ZArith List Bool String.
+From Flocq Require Core.
+From GD Require C07.Dec17.
 From GD Require Import C07.Token C07.TokenProofs C07.Number C07.NumberProofs C07.Entry C07.EntryProofs
-  C07.Witness C07.Tables C07.Digits Gen.Formats.
+  C07.EntryProofs2 C07.ScalarCode C07.EntryProofs3 C07.Witness C07.Tables C07.Digits Gen.Formats.
 Import ListNotations.
 Local Open Scope Z_scope.
 
@@ -213,3 +215,121 @@ Proof.
   exact (first_bad_hidden_none hidden_skips_type_rule hidden_flag_min writer_min_version parser_gate
            writer_min_version eq_refl).
 Qed.
+
+(* ------------------------------------------------------------------ *)
+(* scalar field codes *)
+
+(* scalar_code_not_number: no numeric parser of _GD_TokToNum (strtoll,
+   strtoull, strtod; both literal-rule variants) consumes a '<', so a token
+   name<...> is never read as a number (name without '<' and ';', which
+   _GD_ValidateField rejects from Standards Version 5 on) *)
+Theorem scalar_code_not_number : forall uf zf base0 wr wi (x t : bstring),
+  ~ In 60 x -> ~ In 59 x -> tok_to_num_gen uf zf base0 wr wi (x ++ 60 :: t) = NotNum.
+Proof. exact tok_lt_not_number. Qed.
+
+(* the word _GD_WriteConst writes for a scalar field code with index i (-1 =
+   none) is read back by _GD_SetScalar as that code; the index is i, except
+   that a number-like name without index comes back with the index 0 the
+   writer forced with "<0>" (read_index) *)
+Theorem scalar_code_roundtrip : forall c n i wr wi,
+  ctx_ok c -> scode_ok c n -> -1 <= i < 2147483648 ->
+  tok_to_num (r_base0 (rctx_of c)) wr wi (word_tok (code_word c n i)) = NotNum /\
+  carray_check (input_code (rctx_of c) (word_tok (code_word c n i))) = (n, read_index c n i).
+Proof. exact scalar_code_token. Qed.
+
+Theorem scalar_code_forced_index : forall c n,
+  ctx_ok c -> scode_ok c n -> looks_numeric (w_base0 c) n = true ->
+  set_cplx (rctx_of c) (word_tok (code_word c n (-1))) = Some (SCode n 0).
+Proof. exact scalar_code_not_number_statement. Qed.
+
+Example scode_hyp_sat : scode_ok (ctx 10 17) (bytes_of_string "1e3") /\
+                        looks_numeric (w_base0 (ctx 10 17)) (bytes_of_string "1e3") = true.
+Proof.
+  split; [|vm_compute; reflexivity].
+  split; [apply no_nul_b; reflexivity|]. split; [discriminate|].
+  split; [intros H; vm_compute in H; intuition discriminate|]. split; [intros H; vm_compute in H; intuition discriminate|].
+  split; [reflexivity | intros t; reflexivity].
+Qed.
+
+(* ------------------------------------------------------------------ *)
+(* entries with lists of parameters and with scalar field codes *)
+
+(* LINCOM with 1-3 inputs; every coefficient a literal (nlit_ok) or a scalar
+   field code (numw_ok_code); the complex-scalar flag is the one gd_add and the
+   parser compute *)
+Theorem entry_roundtrip_lincom : forall c name (terms : list term),
+  ctx_ok c -> name_ok c name -> (1 <= List.length terms <= 3)%nat ->
+  Forall (term_ok c (lincom_comp terms)) terms ->
+  parse_line (rctx_of c) (print_entry c (ELincom name (lincom_comp terms) terms))
+  = Some (ELincom name (lincom_comp terms) terms).
+Proof. exact lincom_roundtrip. Qed.
+
+Theorem entry_roundtrip_polynom : forall c name inf (co : list (sval cplx)),
+  ctx_ok c -> 7 <= w_std c -> name_ok c name -> code_ok c inf -> (2 <= List.length co <= 6)%nat ->
+  Forall (numw_ok c (existsb im_nonzero co)) co ->
+  parse_line (rctx_of c) (print_entry c (EPolynom name inf (existsb im_nonzero co) co))
+  = Some (EPolynom name inf (existsb im_nonzero co) co).
+Proof. exact polynom_roundtrip. Qed.
+
+Theorem scalar_literal_ok : forall c comp z, nlit_ok c comp z -> numw_ok c comp (SLit z).
+Proof. exact numw_ok_lit. Qed.
+Theorem scalar_code_ok : forall c comp n i, ctx_ok c -> code_exact c n i -> numw_ok c comp (SCode n i).
+Proof. exact numw_ok_code. Qed.
+
+Theorem entry_roundtrip_window : forall c name inf chk op t,
+  ctx_ok c -> 9 <= w_std c -> name_ok c name -> code_ok c inf -> code_ok c chk -> thr_ok c op t ->
+  parse_line (rctx_of c) (print_entry c (EWindow name inf chk op (SLit t)))
+  = Some (EWindow name inf chk op (SLit t)).
+Proof. exact window_roundtrip. Qed.
+
+Theorem entry_roundtrip_carray : forall c name t (vs : list cval),
+  ctx_ok c -> 8 <= w_std c -> name_ok c name -> type_ok c t -> vs <> [] -> Forall (cval_ok c t) vs ->
+  parse_line (rctx_of c) (print_entry c (ECarray name t vs)) = Some (ECarray name t vs).
+Proof. exact carray_roundtrip. Qed.
+
+Theorem entry_roundtrip_sarray : forall c name (vs : list bstring),
+  ctx_ok c -> 10 <= w_std c -> name_ok c name -> Forall no_nul vs ->
+  parse_line (rctx_of c) (print_entry c (ESarray name vs)) = Some (ESarray name vs).
+Proof. exact sarray_roundtrip. Qed.
+
+(* scalar parameters that are literals or scalar field codes *)
+Theorem entry_roundtrip_raw_sv : forall c name t spf,
+  ctx_ok c -> name_ok c name -> type_ok c t -> isv_ok c 1 (2 ^ 32) spf ->
+  parse_line (rctx_of c) (print_entry c (ERaw name t spf)) = Some (ERaw name t spf).
+Proof. exact raw_roundtrip_sv. Qed.
+
+Theorem entry_roundtrip_bit_sv : forall c sgn name inf bn nb,
+  ctx_ok c -> (sgn = true -> 7 <= w_std c) -> name_ok c name -> code_ok c inf ->
+  isv_ok c 0 2147483648 bn -> isv_ok c 1 2147483648 nb ->
+  (forall a b, bn = SLit a -> nb = SLit b -> a + b - 1 <= 63) ->
+  parse_line (rctx_of c) (print_entry c (EBit sgn name inf bn nb)) = Some (EBit sgn name inf bn nb).
+Proof. exact bit_roundtrip_sv. Qed.
+
+Theorem entry_roundtrip_phase_sv : forall c name inf shift,
+  ctx_ok c -> name_ok c name -> code_ok c inf -> isv_ok c (- two63) two63 shift ->
+  parse_line (rctx_of c) (print_entry c (EPhase name inf shift)) = Some (EPhase name inf shift).
+Proof. exact phase_roundtrip_sv. Qed.
+
+Theorem entry_roundtrip_mplex_sv : forall c name inf cnt v p,
+  ctx_ok c -> 9 <= w_std c -> name_ok c name -> code_ok c inf -> code_ok c cnt ->
+  isv_ok c (- 2147483648) 2147483648 v -> isv_ok c 0 2147483648 p ->
+  parse_line (rctx_of c) (print_entry c (EMplex name inf cnt v p)) = Some (EMplex name inf cnt v p).
+Proof. exact mplex_roundtrip_sv. Qed.
+
+Theorem entry_roundtrip_recip_code : forall c name inf n i,
+  ctx_ok c -> 8 <= w_std c -> name_ok c name -> code_ok c inf -> code_exact c n i ->
+  parse_line (rctx_of c) (print_entry c (ERecip name inf false (SCode n i))) = Some (ERecip name inf false (SCode n i)).
+Proof. exact recip_roundtrip_code. Qed.
+
+(* ------------------------------------------------------------------ *)
+(* (4) the decimal <-> binary fact behind the digit obligation (Flocq, real
+   numbers): for every binary64 value x (normal or subnormal) and every P >= 17,
+   rounding x to P significant decimal digits (nearest, any tie rule) and the
+   result back to binary64 (nearest, any tie rule) gives x.  Correctly rounded
+   printf %.Pg and strtod compute exactly these two roundings. *)
+Theorem dec_bin_roundtrip : forall P : Z, 17 <= P ->
+  forall (c2 c10 : Z -> bool) (x : Rdefinitions.R),
+  Generic_fmt.generic_format Zaux.radix2 (FLT.FLT_exp (-1074) 53) x ->
+  Generic_fmt.round Zaux.radix2 (FLT.FLT_exp (-1074) 53) (Generic_fmt.Znearest c2)
+    (Generic_fmt.round C07.Dec17.radix10 (FLX.FLX_exp P) (Generic_fmt.Znearest c10) x) = x.
+Proof. exact C07.Dec17.dec17_roundtrip. Qed.
